@@ -197,11 +197,10 @@ def stage_observations(case):
                 expr = coll.expr
         except NotImplementedError as ex:
             return {"skip": "NotImplementedError: " + str(ex)[:60]}
-        except Exception as ex:  # noqa: BLE001 - building the lazy program failed: reported for every stage
-            if is_shim_error(ex):
+        except Exception as ex:  # noqa: BLE001 - the lazy program cannot even be written down with dask's API: that is
+            if is_shim_error(ex):  # a limitation of the operations (C36), nothing the optimizer has seen yet
                 return {"skip": "pyarrow shim"}
-            out["lg"] = raised(ex)
-            return out
+            return {"skip": "dask cannot express the program: %s" % type(ex).__name__}
         exprs = {}
 
         def attempt(code, make):
@@ -226,14 +225,18 @@ def stage_observations(case):
                 return execute(e)
             attempt(code, make)
 
+        only = case.get("only")                  # (the selftest executes a subset of the stages)
         for code, name in STAGES:
-            staged(code, name)
-        attempt("lc", lambda: execute(expr.lower_completely()))
-        if "sl" in exprs:
+            if only is None or code in only:
+                staged(code, name)
+        if only is None or "lc" in only:
+            attempt("lc", lambda: execute(expr.lower_completely()))
+        if "sl" in exprs and (only is None or "r1" in only):
             staged("r1", "fused", exprs["sl"])
-        if "fu" in exprs:
+        if "fu" in exprs and (only is None or "r2" in only):
             staged("r2", "fused", exprs["fu"])
-        attempt("cm", lambda: coll.compute(scheduler="sync"))
+        if only is None or "cm" in only:
+            attempt("cm", lambda: coll.compute(scheduler="sync"))
     return out
 
 
@@ -280,6 +283,10 @@ def classify(case, stages_bad, obs=None):
     # Head._simplify_down wraps EVERY expression operand of an elementwise node, scalar reductions included
     if what == "raises" and "object has no attribute 'head'" in o.get("msg", ""):
         return "head-pushed-into-scalar-operand"
+    # simplifying an expression that holds Fused nodes rewrites the dependencies of a Fused node, whose inner
+    # expressions keep referring to the old ones by name
+    if what == "raises" and first == "r2" and o.get("msg", "").startswith("Missing dependency"):
+        return "reoptimize-fused:dependencies-rewritten-under-fused-node"
     # Assign fusion drops the earlier assignment of a re-assigned column and appends it at the end
     names = [st["name"] for st in case["steps"] if st["k"] == "assign"]
     if what == "wrong-result" and "Cols" in clauses and len(set(names)) < len(names) and obs is not None \
@@ -293,10 +300,12 @@ def _work(case):
     return stage_observations(case)
 
 
-def judge_cases(ctx, cases, label):
-    """Run every case through all stages, let ONE TLC run decide the pooled records.
-    -> [(case, {stage: clauses}, {stage: obs})] for cases with a rejected stage; counts evaluations."""
-    results = pmap(_work, cases, chunk=8)
+def judge_cases(ctx, cases, label, results=None):
+    """Run every case through all stages (unless `results` holds their observations already), let ONE TLC run decide
+    the pooled records.  -> ([(case, {stage: clauses}, {stage: obs})] for the cases with a rejected stage,
+    observations per case, number of executions)."""
+    if results is None:
+        results = pmap(_work, cases, chunk=8)
     pool, members = {}, {}
     per_case = []
     for ci, (case, obs) in enumerate(zip(cases, results)):
@@ -336,6 +345,7 @@ def judge_cases(ctx, cases, label):
             raise MachineryError("DenoteFrame disagrees with pandas on %r: clauses %s, pandas gives %r"
                                  % ({k: cases[ci][k] for k in ("src", "steps", "fin")}, stages_bad["pd"], per_case[ci]["pd"]))
         out.append((cases[ci], stages_bad, per_case[ci]))
+    judge_cases.last_bad_index = sorted(bad)
     return out, per_case, n_exec
 
 
@@ -365,40 +375,42 @@ def variants(rng, nrows):
 
 
 def rand_expr(rng, cols, depth, boolean):
-    """A random column expression over `cols` (values stay small)."""
-    def leaf():
-        return {"e": "col", "c": rng.choice(cols)} if rng.random() < 0.75 else {"e": "const", "v": rng.randint(0, 2)}
+    """A random column expression over `cols` (values stay small).  ser(d): Series-valued; sca(d): scalar-valued
+    (a constant, or a reduction of a Series-valued expression - never of a scalar)."""
+    def col():
+        return {"e": "col", "c": rng.choice(cols)}
 
-    def num(d):
-        r = rng.random()
-        if d == 0 or r < 0.3:
-            x = {"e": "col", "c": rng.choice(cols)}
-            return {"e": "fillna", "x": x, "v": rng.randint(0, 1)} if rng.random() < 0.15 else x
-        if r < 0.5:
-            return {"e": "red", "op": rng.choice(["sum", "min", "max", "count"]), "x": num(d - 1)}
-        if r < 0.6:
+    def sca(d):
+        if d == 0 or rng.random() < 0.35:
             return {"e": "const", "v": rng.randint(0, 2)}
-        return {"e": "bin", "f": rng.choice(["add", "sub", "add", "mul"]), "l": num(d - 1), "r": num(d - 1) if rng.random() < 0.7 else leaf()}
+        return {"e": "red", "op": rng.choice(["sum", "min", "max", "count"]), "x": ser(d - 1)}
+
+    def ser(d):
+        r = rng.random()
+        if d == 0 or r < 0.35:
+            return {"e": "fillna", "x": col(), "v": rng.randint(0, 1)} if rng.random() < 0.15 else col()
+        f = rng.choice(["add", "sub", "add", "mul"])
+        r = rng.random()
+        if r < 0.45:
+            return {"e": "bin", "f": f, "l": ser(d - 1), "r": ser(d - 1)}
+        if r < 0.8:
+            return {"e": "bin", "f": f, "l": ser(d - 1), "r": sca(d)}
+        return {"e": "bin", "f": f, "l": sca(d), "r": ser(d - 1)}
 
     def boo(d):
         r = rng.random()
         if d == 0 or r < 0.55:
-            l = num(max(0, d - 1))
-            if l["e"] in ("const", "red"):
-                l = {"e": "col", "c": rng.choice(cols)}
-            return {"e": "bin", "f": rng.choice(["lt", "le", "gt", "ge", "eq", "ne"]), "l": l, "r": num(max(0, d - 1))}
+            return {"e": "bin", "f": rng.choice(["lt", "le", "gt", "ge", "eq", "ne"]), "l": ser(max(0, d - 1)),
+                    "r": ser(max(0, d - 1)) if rng.random() < 0.5 else sca(d)}
         if r < 0.65:
-            return {"e": rng.choice(["isna", "notna"]), "x": {"e": "col", "c": rng.choice(cols)}}
+            return {"e": rng.choice(["isna", "notna"]), "x": col()}
         if r < 0.75:
-            return {"e": "isin", "x": {"e": "col", "c": rng.choice(cols)}, "vals": sorted(set(rng.randint(0, 3) for _ in range(2)))}
+            return {"e": "isin", "x": col(), "vals": sorted(set(rng.randint(0, 3) for _ in range(2)))}
         if r < 0.82:
             return {"e": "not", "x": boo(d - 1)}
         return {"e": "bin", "f": rng.choice(["and", "or", "and"]), "l": boo(d - 1), "r": boo(d - 1)}
 
-    x = boo(depth) if boolean else num(depth)
-    if not boolean and x["e"] in ("const", "red"):          # an assigned value is always a column expression
-        x = {"e": "bin", "f": "add", "l": {"e": "col", "c": rng.choice(cols)}, "r": x}
-    return x
+    return boo(depth) if boolean else ser(depth)
 
 
 def random_program(rng):
@@ -523,27 +535,38 @@ def replay(ctx, obj):
 # ----------------------------------------------------------------------------- selftest
 def selftest(ctx):
     """Binding demonstration: in-memory mutants of the anchored optimizer functions must be reported on a small program
-    set (and the unmutated code must not be, beyond the known findings); corrupted recorded results must be rejected."""
+    set (and the unmutated code must not be, beyond the known findings); corrupted recorded results must be rejected.
+    Observations of all runs are decided by ONE TLC run."""
     from ..divisions import mutate, patched_attr as patched
     dd()
     import dask._expr as core
     import dask.dataframe.dask_expr._expr as ex
     rng = ctx.rng
-    progs, _ = model_check(ctx, 2, {0: 1, 1: 1, 2: 12}, "selftest programs", liveness=False)
-    base_cases = [case_of(p, rng) for p in rng.sample(progs, min(90, len(progs)))] + [random_program(rng) for _ in range(50)]
+    S = MC_SOURCES[0]
+    col, k = (lambda c: {"e": "col", "c": c}), (lambda v: {"e": "const", "v": v})
+    bn = lambda f, l, r: {"e": "bin", "f": f, "l": l, "r": r}          # noqa: E731
+    P = lambda *cs: {"k": "project", "cols": list(cs)}                  # noqa: E731
+    F = lambda p: {"k": "filter", "p": p}                               # noqa: E731
+    A = lambda n, x: {"k": "assign", "name": n, "x": x}                 # noqa: E731
+    H = lambda n: {"k": "head", "n": n}                                 # noqa: E731
+    frame, colfin = {"k": "frame"}, (lambda c: {"k": "col", "c": c})
+    hand = [
+        ([P("a", "b"), P("a")], frame), ([P("c", "a"), F(bn("gt", col("a"), k(1))), P("a")], frame), ([P("a", "c"), P("c")], colfin("c")),
+        ([F(bn("gt", col("a"), k(0))), F(bn("lt", col("c"), k(2)))], frame), ([F(bn("gt", col("a"), k(1))), F(bn("ge", col("c"), k(1)))], colfin("a")),
+        ([A("d", bn("add", col("a"), col("c"))), A("c", bn("mul", col("c"), k(2))), P("a", "d")], frame),
+        ([A("d", bn("add", col("a"), col("c"))), A("a", bn("mul", col("a"), k(2))), P("d", "c")], frame),
+        ([A("d", bn("add", col("a"), col("c"))), A("e", bn("add", col("b"), k(1))), P("e", "a")], frame),
+        ([H(3), H(2)], frame), ([H(2), H(3)], frame), ([{"k": "fmap", "f": "addc", "v": 1}, H(3), H(1)], colfin("a")),
+        ([A("d", bn("add", col("a"), k(1))), F(bn("gt", col("d"), k(1))), P("a", "d")], frame),
+        ([F(bn("lt", col("a"), {"e": "red", "op": "max", "x": col("a")})), P("b", "c")], {"k": "red", "op": "sum", "c": "c"}),
+    ]
+    stages = ["sl", "fu", "cm"]
+    base_cases = [{"src": S, "steps": st, "fin": fin, "variant": {"k": "fp", "n": 2}, "only": stages} for st, fin in hand]
+    base_cases += [dict(random_program(rng), only=stages) for _ in range(12)]
     known = set(ctx.known)
-
-    def new_violations(cases):
-        bad, _, _ = judge_cases(ctx, cases, "selftest")
-        return [s for s in (classify(c, sb, o) for c, sb, o in bad) if s not in known]
-
-    base = new_violations(base_cases)
-    print("selftest C43 baseline (unmutated code, %d programs): violations outside known findings: %d -> %s"
-          % (len(base_cases), len(base), "ok" if not base else "UNEXPECTED %s" % base[:3]))
-    ok = not base
     mutants = [
-        ("determine_column_projection: columns needed by the other consumers of a shared node are ignored (dropped branch)",
-         [ex], "determine_column_projection", mutate(ex.determine_column_projection, "column_union.extend(p._projection_columns)", "pass")),
+        ("Projection._simplify_down: df[a][b] fused to df[a] instead of df[b] (wrong operand)",
+         [ex.Projection], "_simplify_down", mutate(vars(ex.Projection)["_simplify_down"], "return self.frame.frame[b]", "return self.frame.frame[a]")),
         ("Filter._simplify_up: two filters fused with | instead of & (wrong operand)",
          [ex.Filter], "_simplify_up", mutate(vars(ex.Filter)["_simplify_up"], "self.predicate & parent.predicate.substitute(self, self.frame)",
                                              "self.predicate | parent.predicate.substitute(self, self.frame)")),
@@ -551,24 +574,36 @@ def selftest(ctx):
          [ex.Assign], "_simplify_up", mutate(vars(ex.Assign)["_simplify_up"], "if k in columns:", "if k not in columns:")),
         ("Head._simplify_down: head(head(x, n), m) fused to max(n, m) (boundary)",
          [ex.Head], "_simplify_down", mutate(vars(ex.Head)["_simplify_down"], "min(self.n, self.frame.n)", "max(self.n, self.frame.n)")),
-        ("Expr.simplify: the fixpoint loop stops after the first pass that revisits a seen expression without raising -> replaced "
-         "by a loop that reports non-convergence on the second pass (spurious 'Optimizer does not converge')",
+        ("Expr.simplify: the second simplification pass is reported as a revisit (spurious 'Optimizer does not converge')",
          [core.Expr], "simplify", mutate(vars(core.Expr)["simplify"], "if new._name in seen:", "if len(seen) >= 1:")),
     ]
+    runs = [("baseline", pmap(_work, base_cases, chunk=4))]
     for what, targets, attr, mut in mutants:
         with patched(targets, attr, mut):
-            got = new_violations(base_cases)
-        good = len(got) > 0
-        ok = ok and good
-        print("selftest C43 mutant [%s]: %s (%d programs flagged, e.g. %s)" % (what, "DETECTED" if good else "MISSED", len(got), got[0] if got else "-"))
+            runs.append((what, pmap(_work, base_cases, chunk=4)))
+    n = len(base_cases)
+    all_cases = [c for _ in runs for c in base_cases]
+    all_results = [r for _w, res in runs for r in res]
+    bad, _, _ = judge_cases(ctx, all_cases, "selftest: baseline + mutants", results=all_results)
+    flagged = {i: [] for i in range(len(runs))}
+    for ci, (case, sb, o) in zip(judge_cases.last_bad_index, bad):
+        sig = classify(case, sb, o)
+        if sig not in known:
+            flagged[ci // n].append(sig)
+    ok = not flagged[0]
+    print("selftest C43 baseline (unmutated code, %d programs x stages %s): violations outside known findings: %d -> %s"
+          % (n, stages, len(flagged[0]), "ok" if ok else "UNEXPECTED %s" % flagged[0][:3]))
+    for i, (what, _res) in enumerate(runs[1:], start=1):
+        got = flagged[i]
+        ok = ok and bool(got)
+        print("selftest C43 mutant [%s]: %s (%d of %d programs flagged, e.g. %s)" % (what, "DETECTED" if got else "MISSED", len(got), n, got[0] if got else "-"))
     # corrupted recorded results
     recs = []
-    for case in base_cases[:40]:
-        o = stage_observations(case)
+    for case, o in zip(base_cases, runs[0][1]):
         if "skip" in o or o.get("fu", {}).get("raised", "x") != "" or len(o["fu"]["rows"]) < 2:
             continue
         recs.append({"id": "g%d" % len(recs), "src": case["src"], "steps": case["steps"], "fin": case["fin"], "st": "fu",
-                     "obs": {k: o["fu"][k] for k in ("raised", "ser", "cols", "kinds", "rows")}})
+                     "base": list(o["fu"]["kinds"]), "obs": {k: o["fu"][k] for k in ("raised", "ser", "cols", "kinds", "rows")}})
     corrupt = []
     for j, r in enumerate(recs):
         c = copy.deepcopy(r)
